@@ -45,6 +45,13 @@ def rule_a(ctx, out):
             maps.add(c.args[2].id)
         else:
             out.bad("optimize_asm_block_asm_format:replacement-map-not-a-name", "third argument of rebuild is not a plain name", where(f, c))
+    writes = {}
+    for n in cfg.nodes:
+        for v in node_binds(n):
+            writes.setdefault(v, []).append(n)
+    verdicts = {v: (ns[0].ast.value, ns[0]) for v, ns in writes.items() if len(ns) == 1 and ns[0].kind == "stmt" and isinstance(ns[0].ast, ast.Assign)
+                and len(ns[0].ast.targets) == 1 and is_name(ns[0].ast.targets[0], v)
+                and isinstance(ns[0].ast.value, ast.Call) and call_name(ns[0].ast.value) == "block_has_been_optimized"}
     for n in cfg.nodes:
         a = n.ast
         if n.kind != "stmt" or not isinstance(a, ast.Assign):
@@ -59,12 +66,18 @@ def rule_a(ctx, out):
                 for tn in cfg.nodes:
                     if tn.kind != "test":
                         continue
-                    for c in calls_in(tn.ast, "block_has_been_optimized"):
-                        if _call_truthy_on(tn.ast, True, c) and cfg.edge_dominated_by_branch(n, tn, "T"):
-                            if _accept_args_ok(f, cfg, tn, c, a.value, out):
+                    cands = [(c, tn, None) for c in calls_in(tn.ast, "block_has_been_optimized")]
+                    # the verdict kept in a local that is assigned once, from the call, before the test
+                    for nm in {x.id for x in ast.walk(tn.ast) if isinstance(x, ast.Name) and x.id in verdicts}:
+                        c, at = verdicts[nm]
+                        if cfg.dominates(at, tn):
+                            cands.append((c, at, nm))
+                    for c, at, nm in cands:
+                        if _call_truthy_on(tn.ast, True, c, nm) and cfg.edge_dominated_by_branch(n, tn, "T"):
+                            if _accept_args_ok(f, cfg, at, c, a.value, out):
                                 ok = True
-                        elif _call_truthy_on(tn.ast, False, c) and cfg.edge_dominated_by_branch(n, tn, "F"):
-                            if _accept_args_ok(f, cfg, tn, c, a.value, out):
+                        elif _call_truthy_on(tn.ast, False, c, nm) and cfg.edge_dominated_by_branch(n, tn, "F"):
+                            if _accept_args_ok(f, cfg, at, c, a.value, out):
                                 ok = True
                 if ok:
                     out.ok({"store": short(a), "guard": "block_has_been_optimized(...) is True"})
@@ -79,17 +92,17 @@ def rule_a(ctx, out):
             out.bad(f"optimize_asm_block_asm_format:bulk-write:{short(n, 50)}", "replacement map written through a bulk method", where(f, n))
 
 
-def _call_truthy_on(test, want, call):
-    """(test == want) implies call's value truthy."""
-    if test is call:
+def _call_truthy_on(test, want, call, alias=None):
+    """(test == want) implies call's value truthy (`alias`: a local that holds the call's value)."""
+    if test is call or (alias is not None and is_name(test, alias)):
         return want
     if isinstance(test, ast.UnaryOp) and isinstance(test.op, ast.Not):
-        return _call_truthy_on(test.operand, not want, call)
+        return _call_truthy_on(test.operand, not want, call, alias)
     if isinstance(test, ast.BoolOp):
         if isinstance(test.op, ast.And) and want:
-            return any(_call_truthy_on(v, True, call) for v in test.values)
+            return any(_call_truthy_on(v, True, call, alias) for v in test.values)
         if isinstance(test.op, ast.Or) and not want:
-            return any(_call_truthy_on(v, False, call) for v in test.values)
+            return any(_call_truthy_on(v, False, call, alias) for v in test.values)
     return False
 
 
@@ -534,7 +547,50 @@ def rule_f(ctx, out):
         raise AnalysisError("the warm-address / warm-slot accumulators of AsmBlock.gas_spent were not found")
 
 
+def rule_g(ctx, out):
+    """Only accepted candidates are logged.  The log written with -log is replayed by -optimize-from-log with an equivalence check but
+    no cost check, so an entry for a candidate that the acceptance test (block_has_been_optimized) refused is re-applied on replay:
+    the replayed output can cost more than the input.  In optimize_asm_block_asm_format every store into the returned log dictionary,
+    and every non-None store into the replacement map, must sit on the accepting edge of a test of block_has_been_optimized."""
+    f = ctx.func(f"{GASOL}.optimize_asm_block_asm_format")
+    cfg = ctx.cfg(f)
+    rets = [r for r in own_nodes(f.node) if isinstance(r, ast.Return) and isinstance(r.value, ast.Tuple)]
+    returned = {e.id for r in rets for e in r.value.elts if isinstance(e, ast.Name)}
+    rebuild_args = {a.id for c in calls_in(f.node, "rebuild_optimized_asm_block") for a in c.args if isinstance(a, ast.Name)}
+    # acceptance tests: a test whose expression calls block_has_been_optimized, or names a local assigned from such a call
+    acc_locals = {t.id for n in own_nodes(f.node) if isinstance(n, ast.Assign) and any(call_name(c) == "block_has_been_optimized" for c in calls_in(n.value))
+                  for t in n.targets if isinstance(t, ast.Name)}
+    tests = [t for t in cfg.nodes if t.kind == "test" and (any(call_name(c) == "block_has_been_optimized" for c in calls_in(t.ast))
+                                                          or any(isinstance(x, ast.Name) and x.id in acc_locals for x in ast.walk(t.ast)))]
+    if not tests:
+        raise AnalysisError("optimize_asm_block_asm_format: the acceptance test (block_has_been_optimized) was not found")
+    n = 0
+    for node in cfg.nodes:
+        if node.kind != "stmt" or not isinstance(node.ast, ast.Assign):
+            continue
+        for tg in node.ast.targets:
+            if not (isinstance(tg, ast.Subscript) and isinstance(tg.value, ast.Name) and tg.value.id in (returned | rebuild_args)):
+                continue
+            is_none = isinstance(node.ast.value, ast.Constant) and node.ast.value.value is None
+            if is_none:
+                continue
+            n += 1
+            # negated tests accept on their F edge
+            guarded = any(cfg.edge_dominated_by_branch(node, t, "F" if isinstance(t.ast, ast.UnaryOp) and isinstance(t.ast.op, ast.Not) else "T") for t in tests)
+            what = "log entry" if tg.value.id in returned else "replacement"
+            if guarded:
+                out.ok({"store": short(node.ast, 70), "kind": what, "under": "the accepting edge of block_has_been_optimized"})
+            else:
+                out.bad(f"{'log-entry' if what == 'log entry' else 'replacement'}-written-without-acceptance:{tg.value.id}", f"optimize_asm_block_asm_format: `{short(node.ast, 70)}` "
+                        f"({what}) is reached without the acceptance test having accepted the candidate: " +
+                        ("a refused candidate is replayed from the log, where only equivalence is checked" if what == "log entry" else "a refused candidate goes into the output"),
+                        where(f, node.ast))
+    if n < 2:
+        raise AnalysisError(f"optimize_asm_block_asm_format: only {n} stores into the log / replacement map found")
+
+
 RULES = [
+    ("C08.g", "only accepted candidates are logged and emitted", 2, rule_g),
     ("C08.f", "accumulators of the cost functions are separate objects", 2, rule_f),
     ("C08.e", "price tables: static gas classes, nothing free, no missing comma", 120, rule_e),
     ("C08.a", "acceptance test dominates replacement", 2, rule_a),
